@@ -305,13 +305,27 @@ impl Op {
                 2 + (1u32 << (2 * d)) / 8
             }
             Op::Compact { cells } => 5 + cells.len() as u32 / 4,
-            Op::Uncompact { cells, .. } => 5 + cells.len() as u32 * 4,
+            Op::Uncompact { cells, res } => {
+                let mut c: u64 = 5;
+                for x in cells.iter().take(64) {
+                    let d = (*res - a5::get_resolution(*x)).clamp(0, 12) as u32;
+                    c += (1u64 << (2 * d)) / 8 + 1;
+                }
+                c.min(1_000_000) as u32
+            }
             Op::ContainsPoint { .. } | Op::GetPentagon { .. } | Op::CellToLonLat { .. } => 5,
             Op::Forward { t: Target::Fresh, .. } | Op::Inverse { t: Target::Fresh, .. } | Op::CrsVertex { inst: None, .. } => 60,
             Op::SphTriShape { .. } | Op::PentagonShapeOps { .. } | Op::NormalizeLongitudes { .. } => 8,
             Op::OriginsDigest | Op::PentagonDigest => 3,
             _ => 2,
         }
+    }
+
+    /// Calls with very large results: executed without yield sites (hundreds of thousands of
+    /// scheduling points inside one call would only slow the run down) and kept out of the
+    /// contention and repetition modes.
+    pub fn is_big(&self) -> bool {
+        self.est_cost_us() > 2000
     }
 
     /// Does the call go through the calling thread's projection memo?
